@@ -53,6 +53,10 @@ class Ctx:
         self.checker_cmds.append(cmd)
         names = L.theorems_in(props_module, prefix)
         self.obligations += [n for n in names if n not in self.obligations]
+        if exes:
+            oke, oute = L.lake_build(list(exes))   # drivers first: a broken proof must not leave a stale driver
+            if not oke:
+                self.broken.append(("lake build " + " ".join(exes), oute[-3000:]))
         ok, out = L.lake_build(targets)
         if not ok:
             ok_all = False
